@@ -1,9 +1,10 @@
 /* C07 correspondence driver for the real formula parser (src/xraylib-parser.c).
 
    Built by ./check C07 against the library objects compiled from the working tree (ASan+UBSan) and linked with
-   -Wl,--wrap=malloc,--wrap=calloc,--wrap=realloc,--wrap=free,--wrap=strdup,--wrap=strndup,--wrap=vasprintf
+   -Wl,--wrap=malloc,--wrap=calloc,--wrap=realloc,--wrap=free,--wrap=strdup,--wrap=strndup,--wrap=vasprintf,--wrap=strtod
    so that every block the library allocates or releases passes the counter below (the counter is an observer
-   of the correspondence run only; see DESIGN 2.5/6).
+   of the correspondence run only; see DESIGN 2.5/6), and every `strtod` the parser calls passes the locale observer:
+   it records the LC_NUMERIC locale in force at the call (audit clause 19: the switch to "C" before the conversions).
 
    Line protocol (one op per line, strings %-escaped: every byte outside [A-Za-z0-9.()] is written %XX;
    the empty string is written `%`):
@@ -15,8 +16,10 @@
      s2z <string>                   -> SymbolToAtomicNumber
      s2znull                        -> SymbolToAtomicNumber(NULL)
    Answers:
-     ok n=<k> Z:<nAtoms>:<frac> ... all=<nAtomsAll> mm=<molarMass> live=<after call>,<after free> loc=<before>,<after>
-     err <code> <message %-escaped> live=<after call>,<after call> loc=<before>,<after>
+     ok n=<k> Z:<nAtoms>:<frac> ... all=<nAtomsAll> mm=<molarMass> live=<after call>,<after free> loc=<before>,<after> conv=<k>
+     err <code> <message %-escaped> live=<after call>,<after call> loc=<before>,<after> conv=<k>
+   conv = number of strtod calls made by CompoundParser; followed by ` convloc=<name>` when one of them was made while
+   LC_NUMERIC was not "C"/"POSIX" (the first such name), by ` lcall=1` when setlocale(LC_ALL, NULL) changed across the call.
    doubles are printed as x<16 hex digits>. */
 #include "config.h"
 #include <stdio.h>
@@ -40,6 +43,20 @@ void __wrap_free(void *p) { if (p) live_blocks--; __real_free(p); }
 char *__wrap_strdup(const char *s) { char *p = __real_strdup(s); if (p) live_blocks++; return p; }
 char *__wrap_strndup(const char *s, size_t n) { char *p = __real_strndup(s, n); if (p) live_blocks++; return p; }
 int __wrap_vasprintf(char **out, const char *fmt, va_list ap) { int r = __real_vasprintf(out, fmt, ap); if (r >= 0 && *out) live_blocks++; return r; }
+
+/* ---------------- strtod observer ---------------------------------------------------------- */
+double __real_strtod(const char *, char **);
+static int conv_watch = 0;          /* 1 while CompoundParser runs */
+static long conv_calls = -1;        /* strtod calls seen during the watched call (-1: no watched call: ops other than parse) */
+static char conv_badloc[64] = "";   /* LC_NUMERIC at the first watched strtod call made outside the "C" locale */
+double __wrap_strtod(const char *s, char **end) {
+  if (conv_watch) {
+    const char *l = setlocale(LC_NUMERIC, NULL);
+    conv_calls++;
+    if (l && strcmp(l, "C") != 0 && strcmp(l, "POSIX") != 0 && !conv_badloc[0]) { strncpy(conv_badloc, l, sizeof conv_badloc - 1); }
+  }
+  return __real_strtod(s, end);
+}
 
 /* ---------------- helpers ------------------------------------------------------------------ */
 static void pr_d(double d) { uint64_t b; memcpy(&b, &d, 8); printf("x%016llx", (unsigned long long)b); }
@@ -65,8 +82,10 @@ static int lcall_changed = 0;
 static void pr_tail(long l1, long l2, const char *loc0) {
   const char *loc1 = setlocale(LC_NUMERIC, NULL);
   printf(" live=%ld,%ld loc=", l1, l2); pr_esc(loc0); putchar(','); pr_esc(loc1);
+  if (conv_calls >= 0) printf(" conv=%ld", conv_calls);
+  if (conv_badloc[0]) { printf(" convloc="); pr_esc(conv_badloc); }
   if (lcall_changed) printf(" lcall=1");      /* setlocale(LC_ALL, NULL) differs from before the call */
-  putchar('\n'); lcall_changed = 0;
+  putchar('\n'); lcall_changed = 0; conv_calls = -1; conv_badloc[0] = 0;
 }
 static void pr_cd(struct compoundData *cd) {
   printf("ok n=%d", cd->nElements);
@@ -88,7 +107,9 @@ static void do_parse(const char *locname, const char *str) {
   strncpy(loc0, setlocale(LC_NUMERIC, NULL), sizeof loc0 - 1);
   static char all0[512]; strncpy(all0, setlocale(LC_ALL, NULL), sizeof all0 - 1);
   long base = live_blocks;
+  conv_calls = 0; conv_badloc[0] = 0; conv_watch = 1;
   struct compoundData *cd = CompoundParser(str, &e);
+  conv_watch = 0;
   lcall_changed = strcmp(all0, setlocale(LC_ALL, NULL)) != 0;
   if (cd) {
     pr_cd(cd);
